@@ -8,6 +8,9 @@
 (*  {"ev":"at","tid","cid","c","a","st","res":[[s,e,name,strand]..],"raised":""}                   *)
 (*  {"ev":"between","tid","cid","c","a","b","st","res":[..],"raised":""}                            *)
 (*  {"ev":"annot","tid","cid","c","blocks":[[bs,be]..],"st","m","res":[..],"raised":""}            *)
+(*  {"ev":"mol","tid","cid","c","reads":[{"mate":1|2,"rev":bool,"blocks":[[bs,be]..]}..],"stranded":"none"|"false"|"true", *)
+(*   "m","res":[..],"genes":[..],"raised":""}   FeatureAnnotatedMolecule.annotate(method=m) on one fragment:    *)
+(*   res = features behind the keys of .hits, genes = features behind .genes after set_intron_exon_features()   *)
 (* `clean[cid]` = no add since the last explicit sort(): findFeaturesBetween and                   *)
 (* findFeaturesAtPysamAlign do not sort themselves, so calling them on a container that was not    *)
 (* re-indexed is outside the add*/sort/query* pattern of the statement (noted, not judged);         *)
@@ -46,6 +49,20 @@ AnnotV(b, e) ==
        ELSE IF ~(Res(e) \subseteq TrueAnnotClosed(F, bl, e.st)) THEN "Inv_C16_Annotate_extra"
        ELSE "ok"
 
+(* molecule layer (featureannotatedmolecule.py): stranded None -> any strand; False -> the strand of the       *)
+(* molecule = strand of R1 (for an R2-only fragment the opposite of R2); True -> the other strand.             *)
+MolRev(e) == IF \E i \in DOMAIN e.reads : e.reads[i].mate = 1
+             THEN e.reads[CHOOSE i \in DOMAIN e.reads : e.reads[i].mate = 1].rev
+             ELSE ~e.reads[CHOOSE i \in DOMAIN e.reads : e.reads[i].mate = 2].rev
+MolStrand(e) == CASE e.stranded = "none" -> AnyStrand
+                  [] e.stranded = "false" -> (IF MolRev(e) THEN "-" ELSE "+")
+                  [] e.stranded = "true" -> (IF MolRev(e) THEN "+" ELSE "-")
+MolTruth(F, e) == UNION { TrueAnnotBases(F, Pairs(e.reads[i].blocks), MolStrand(e)) : i \in DOMAIN e.reads }
+MolV(b, e) == LET t(F) == MolTruth(F, e)
+                  v == Classify(b, e, t, "Inv_C16_MolAnnotate")
+              IN IF v # "ok" THEN v
+                 ELSE IF SeqSet(e.genes) # t(OnContig(b, e.c)) THEN "Inv_C16_MolGenes" ELSE "ok"
+
 QueryPre(e) == CASE e.ev = "between" -> e.a <= e.b
                  [] e.ev = "annot" -> \A k \in DOMAIN e.blocks : e.blocks[k][1] < e.blocks[k][2]
                  [] OTHER -> TRUE
@@ -55,11 +72,12 @@ Verdict(b, cl, e) ==
     ELSE CASE e.ev = "at" -> AtV(b, e)
            [] e.ev = "between" -> IF cl /\ QueryPre(e) THEN BetweenV(b, e) ELSE "ok"
            [] e.ev = "annot" -> IF cl /\ QueryPre(e) THEN AnnotV(b, e) ELSE "ok"
+           [] e.ev = "mol" -> IF cl THEN MolV(b, e) ELSE "ok"
            [] e.ev \in {"add", "sort"} -> "ok"
            [] OTHER -> "unknown_event"
 
 Notes(line, b, cl, e) ==
-    IF e.ev \in {"between", "annot"} /\ ~(cl /\ QueryPre(e)) THEN Note(line, e.tid, "outside_precondition_unsorted_or_empty_range")
+    IF e.ev \in {"between", "annot", "mol"} /\ ~(cl /\ QueryPre(e)) THEN Note(line, e.tid, "outside_precondition_unsorted_or_empty_range")
     ELSE IF e.ev = "annot" /\ e.raised = "" /\ e.m = 1
             /\ Res(e) # TrueAnnotBases(OnContig(b, e.c), Pairs(e.blocks), e.st) /\ AnnotV(b, e) = "ok"
          THEN Note(line, e.tid, "annot_method1_includes_base_after_block_end")
